@@ -77,6 +77,23 @@ def build(cx, fmt, rep, nrec, first, step, p):
             ia = p.get('index_aim', 1)
             recs.append((first + r * step, [sum(q[ia * tmax:(ia + 1) * tmax])], start, len(F)))
         return F, recs, 1
+    if fmt == 'sfqcd':
+        ncs, tmax, zeu = p.get('ncs', 2), p.get('tmax', 2), p.get('zeuthen', False)
+        F = [I(2), I(ncs), I(tmax), I(8), I(8), I(8), D(1e-6), D(0.4)]
+        ia = p.get('index_aim', 1)
+        obspos = 0 if zeu else 8
+        for r in range(nrec):
+            start = len(F)
+            F.append(I(first + r * step))
+            q = None
+            for j in range(ncs + 1):
+                for i in range(16):
+                    vals = [sym('o%d_%d_%d_%d' % (r, j, i, k)) for k in range(tmax)]
+                    F += [D(v) for v in vals]
+                    if j == ia and i == obspos:
+                        q = vals
+            recs.append((first + r * step, [sum(q)], start, len(F)))
+        return F, recs, 1
     if fmt == 'ms5':
         tmax = p.get('tmax', 2)
         F = [D(0.13), D(1.9), D(1.0), D(1.0), I(tmax), I(1)]
@@ -145,12 +162,15 @@ def call_reader(cx, fmt, path, prefix, p, kw):
             ia = p.get('index_aim', 1)
             c = float(np.sqrt(8 * 0.01 * ia))
             return [Q.read_qtop(path, prefix, c=c, L=1, version='openQCD', **kw)]
+        if fmt == 'sfqcd':
+            ia, ncs = p.get('index_aim', 1), p.get('ncs', 2)
+            return [Q.read_qtop(path, prefix, c=ia * 0.4 / ncs, version='sfqcd', Zeuthen_flow=p.get('zeuthen', False), **kw)]
         if fmt == 'ms5':
             return Q.read_ms5_xsf(path, prefix, 'dd', p.get('corr', 'gA'), **kw)
 
 
 def fname(fmt, prefix, rep):
-    return {'rwms14': '%s%s.dat', 'rwms16': '%s%s.ms1.dat', 'rwms20': '%s%s.ms1.dat', 'qtop': '%s%s.ms.dat', 'ms5': '%s%s.ms5_xsf_dd.dat'}[fmt] % (prefix, rep)
+    return {'rwms14': '%s%s.dat', 'rwms16': '%s%s.ms1.dat', 'rwms20': '%s%s.ms1.dat', 'qtop': '%s%s.ms.dat', 'sfqcd': '%s%s.gfms.dat', 'ms5': '%s%s.ms5_xsf_dd.dat'}[fmt] % (prefix, rep)
 
 
 def result_specs(fmt, p, per_rep, nobs):
@@ -196,7 +216,7 @@ def compare_result(cx, fmt, res, specs, label):
         lib.compare(cx, o, lib.primary_spec(s), '%s[%d]' % (label, i))
 
 
-def h_read(cx, fmt, reps, nrec, first, step, p=None, listing=None, sel=None, truncate=None):
+def h_read(cx, fmt, reps, nrec, first, step, p=None, listing=None, sel=None, truncate=None, trunc_from=0):
     """reps: replica suffixes e.g. ['r0', 'r1']; nrec / first / step per replica (lists);
     sel: dict(r_start=[..], r_stop=[..], r_step=k) selection; truncate: index of the replica whose file length is symbolic."""
     import pyerrors as pe
@@ -214,7 +234,8 @@ def h_read(cx, fmt, reps, nrec, first, step, p=None, listing=None, sel=None, tru
         rep = reps[truncate]
         F = data[rep][0]
         total = nbytes(F)
-        Lsym = cx.integer('L', 0, total - 1)
+        # cuts before record `trunc_from` are covered by the jobs with trunc_from = 0 on smaller record layouts
+        Lsym = cx.integer('L', nbytes(F[:data[rep][1][trunc_from][2]]) if trunc_from else 0, total - 1)
         files[fname(fmt, prefix, rep)][1] = Lsym.t if cx.mode == 'sym' else int(Lsym)
     for name in files:
         if files[name][1] is None:
